@@ -232,6 +232,45 @@ let run_yaw (mode : string) (b : M.z list) (queries : string list) : string =
     String.concat " " (hd :: outs)
   | r -> "init:" ^ show_res_code (fun _ -> "0") r
 
+(* ---------- lights (C02 C09) *)
+let light_fuel = nat_of_int 400000
+
+let show_rgbq (c : M.rgbq) = pr "%s,%s,%s" (string_of_q c.M.qr) (string_of_q c.M.qg) (string_of_q c.M.qb)
+
+(* light <mode f|h> <hex> <queries>: c<t> colour, p<t> pyro mask, s<t> seek (ended, next); t decimal ms *)
+let run_light (mode : string) (prog : M.z list) (queries : string list) : string =
+  let pl = ref (M.player_fresh prog) in
+  let outs = List.map (fun qs ->
+      let kind = qs.[0] in
+      let t = z_of_string (String.sub qs 1 (String.length qs - 1)) in
+      let p0 = if mode = "h" then !pl else M.player_fresh prog in
+      match M.light_seek light_fuel prog p0 t with
+      | M.Ok p ->
+        pl := p;
+        (match kind with
+         | 'c' -> pr "c:%s:%d" (show_rgbq (M.obs_color p)) (if p.M.ex.M.tr_active then 1 else 0)
+         | 'p' -> pr "p:%s" (string_of_z (M.obs_pyro p))
+         | _ -> pr "s:%d,%s" (if M.obs_ended p then 1 else 0) (string_of_z (M.obs_next p)))
+      | M.Fuel -> pr "%c:noprogress" kind
+      | _ -> pr "%c:?" kind) queries in
+  String.concat " " outs
+
+(* the declarative semantics on the same queries (always 'fresh') *)
+let run_lightspec (prog : M.z list) (queries : string list) : string =
+  let outs = List.map (fun qs ->
+      let kind = qs.[0] in
+      let t = z_of_string (String.sub qs 1 (String.length qs - 1)) in
+      match M.state_at light_fuel prog t with
+      | Some s ->
+        (match kind with
+         | 'c' -> let infade = (match s.M.m_fade with
+             | Some f -> Z.lt (zz_of_z t) (Z.add (zz_of_z f.M.f_t0) (zz_of_z f.M.f_dur)) | None -> false) in
+           pr "c:%s:%d" (show_rgbq (M.spec_color s t)) (if infade then 1 else 0)
+         | 'p' -> pr "p:%s" (string_of_z (M.spec_pyro s))
+         | _ -> pr "s:%d,%s" (if M.spec_ended s then 1 else 0) (string_of_z (M.spec_next s t)))
+      | None -> pr "%c:noprogress" kind) queries in
+  String.concat " " outs
+
 (* ---------- dispatch *)
 let run_case (w : string list) : string =
   match w with
@@ -255,6 +294,8 @@ let run_case (w : string list) : string =
   | ["rgbenc"; r; g; b] ->
     pr "ok %s" (string_of_z (M.encode_rgb565 { M.red = z_of_string r; M.green = z_of_string g; M.blue = z_of_string b }))
   | ["file"; r; b; script] -> run_file_script (route_of r) (bytes_of_hex b) script
+  | ["light"; mode; b; qs] -> run_light mode (bytes_of_hex b) (if qs = "-" then [] else String.split_on_char ',' qs)
+  | ["lightspec"; b; qs] -> run_lightspec (bytes_of_hex b) (if qs = "-" then [] else String.split_on_char ',' qs)
   | ["yaw"; mode; b; qs] -> run_yaw mode (bytes_of_hex b) (if qs = "-" then [] else String.split_on_char ',' qs)
   | ["traj"; mode; b; qs] -> run_traj mode (bytes_of_hex b) (if qs = "-" then [] else String.split_on_char ',' qs)
   | ["rth"; b; pts; times] -> run_rth (bytes_of_hex b) (ints_of_csv pts) (if times = "-" then [] else String.split_on_char ',' times)
